@@ -6,7 +6,7 @@ import numpy as np
 from hypothesis import strategies as st
 
 from .. import gens, refs
-from ..api import GridPart, Part, Res, V
+from ..api import PLOT_KINDS, GridPart, Part, Res, V, plot_quietly
 
 PROPERTY_ID = "C10"
 RULE = (
@@ -66,7 +66,9 @@ def synth_case(draw, tier):
                      "g2": draw(g2_value()), "phi": draw(st.floats(-math.pi, math.pi)),
                      "n": draw(st.one_of(st.integers(1, 12), gens.loguniform_int(1, 10 ** 6)))})
     return {"bins": bins, "iscsd": draw(st.sampled_from([True, True, True, False])),
-            "S2": draw(gens.loguniform(1e-3, 1e3)), "fs": draw(gens.loguniform(1e-3, 1e6)), "x4": draw(st.booleans())}
+            "S2": draw(gens.loguniform(1e-3, 1e3)), "fs": draw(gens.loguniform(1e-3, 1e6)), "x4": draw(st.booleans()),
+            "pre": ({"which": draw(st.sampled_from(["psd", "coh", "csd", "cf", "bode", "asd"])), "sigma": draw(st.sampled_from([2, 3, 0.5]))}
+                    if draw(st.integers(0, 5)) == 5 else None)}
 
 
 def _close(a, b, rt=1e-12, at=0.0):
@@ -142,7 +144,10 @@ def oracle_synth(case):
     iscsd = case["iscsd"]
     res = synth_result(len(bins), XX, YY if iscsd else XX, XY if iscsd else XX.astype(complex), n, case["S2"], case["fs"], iscsd)
     viol = []
-    check_formulas(res, iscsd, viol, "synthetic")
+    pre = case.get("pre")
+    if pre:
+        plot_quietly(res, pre["which"], errors=True, sigma=pre["sigma"])
+    check_formulas(res, iscsd, viol, "synthetic" + (":after-plot" if pre else ""))
     if case["x4"]:
         res4 = synth_result(len(bins), XX, YY if iscsd else XX, XY if iscsd else XX.astype(complex), 4 * n, case["S2"], case["fs"], iscsd)
         names = ["Gxx_error", "Gyy_error"] + (["Gxy_error", "Hxy_mag_error", "Hxy_rad_error", "coh_error", "Hxy_deg_error"] if iscsd else [])
@@ -151,7 +156,7 @@ def oracle_synth(case):
             if not _close(a, b / 2.0, 1e-12):
                 viol.append(V("not_one_over_sqrt_n", q=name))
     nontrivial = bool(np.any((g2 < 0.9) | (n < 10))) and iscsd
-    labels = ["synth:csd" if iscsd else "synth:auto"]
+    labels = ["synth:csd" if iscsd else "synth:auto"] + (["synth:plotted-first"] if pre else [])
     if np.any(g2 == 1.0):
         labels.append("g2=1")
     if np.any(g2 < 1e-6):
@@ -167,7 +172,11 @@ def oracle_synth(case):
 def real_case(draw, tier):
     N = draw(gens.loguniform_int(32, 3000))
     mode = draw(st.sampled_from(["auto", "csd", "csd"]))
-    return {"N": N, "mode": mode, "cfg": draw(gens.analysis_config(N, Jmax=40, Kmax=30)), "fs": draw(st.sampled_from([1.0, 50.0])),
+    pre = None
+    if draw(st.integers(0, 2)) == 2:
+        pre = {"which": draw(st.sampled_from(["asd", "psd", "psd", None] if mode == "auto" else ["coh", "csd", "cf", "bode", None])), "errors": draw(st.sampled_from([True, True, False])),
+               "sigma": draw(st.sampled_from([1, 2, 3, 0.5]))}
+    return {"N": N, "mode": mode, "pre": pre, "cfg": draw(gens.analysis_config(N, Jmax=40, Kmax=30)), "fs": draw(st.sampled_from([1.0, 50.0])),
             "rec": draw(gens.pair(N, rel_kinds=["indep", "partial", "partial", "delay", "gain", "yzero"]) if mode == "csd"
                         else gens.record(N))}
 
@@ -180,9 +189,15 @@ def oracle_real(case):
         data = gens.materialise(case["rec"])
     res = gens.make_analyzer(data, case["fs"], case["cfg"]).compute()
     viol = []
-    check_formulas(res, case["mode"] == "csd", viol, "analysis")
+    labels = []
+    pre = case.get("pre")
+    if pre:
+        # the result was used before its error bars are read: drawn with an error band of `sigma` deviations
+        drawn = plot_quietly(res, pre["which"], errors=pre["errors"], sigma=pre["sigma"])
+        labels.append("real:plotted-first" if drawn else "real:plot-refused")
+    check_formulas(res, case["mode"] == "csd", viol, "analysis" + (":after-plot" if pre else ""))
     coh = np.asarray(res.coh) if case["mode"] == "csd" else np.ones(len(res.f))
-    return Res(viol, bool(np.any((coh < 0.9) & (coh > 0))) and case["mode"] == "csd", ["real:" + case["mode"]])
+    return Res(viol, bool(np.any((coh < 0.9) & (coh > 0))) and case["mode"] == "csd", ["real:" + case["mode"]] + labels)
 
 
 # ------------------------------------------------------------------ (c) Monte-Carlo
